@@ -44,7 +44,14 @@ REQUIRED_PROBES = {"quick": ["reject_subgroup", "reject_range", "accept",
 
 BYZ = ["alias_x", "alias_y", "offcurve", "nonresidue", "parity", "prefix",
        "length", "subgroup", "subgroup", "zero", "raw_in_der", "y_zero",
-       "wrong_oid", "infinity_byte"]
+       "wrong_oid", "infinity_byte", "wrong_alg"]
+
+# algorithm identifiers an SPKI must not carry for an ECDSA key: keys
+# restricted to ECDH / ECMQV (RFC 5480), signature OIDs, other key types
+ALG_OIDS = [(1, 3, 132, 1, 12), (1, 3, 132, 1, 13), (1, 2, 840, 113549, 1, 1, 1),
+            (1, 2, 840, 10045, 4, 3, 2), (1, 2, 840, 10045, 2, 2),
+            (1, 2, 840, 10045, 2), (1, 2, 840, 10045, 2, 1, 0),
+            (1, 3, 101, 112)]
 
 
 def budget(tier):
@@ -171,6 +178,7 @@ def execute(prog):
                 pt_bytes = ec.encode_point(mc, P, enc)
                 oid = mc.oid
                 obj_point = None
+                alg_oid = None
                 descr = it["mode"]
                 if it["mode"] == "byz":
                     out["nontrivial"] = True
@@ -181,8 +189,12 @@ def execute(prog):
                     nb = None
                     if b == "alias_x":
                         nb = _enc_any(mc, x + mc.p, y, enc if enc != "compressed" else "uncompressed")
+                        if cont == "object":
+                            obj_point = (x + rnd.choice([1, 1, -1, 2]) * mc.p, y)
                     elif b == "alias_y":
                         nb = _enc_any(mc, x, y + mc.p, enc if enc != "compressed" else "hybrid")
+                        if cont == "object":
+                            obj_point = (x, y + rnd.choice([1, 1, -1, 2]) * mc.p)
                     elif b == "offcurve":
                         nb = _enc_any(mc, rnd.randrange(mc.p),
                                       rnd.randrange(mc.p),
@@ -247,6 +259,12 @@ def execute(prog):
                         cont = rnd.choice(["der", "pem"])
                     elif b == "infinity_byte":
                         nb = b"\x00"
+                    elif b == "wrong_alg" and libx.fmt_ok(toy, "der"):
+                        alg_oid = rnd.choice(ALG_OIDS)
+                        cont = rnd.choice(["der", "pem"])
+                        if enc == "raw":
+                            enc = "uncompressed"
+                            pt_bytes = ec.encode_point(mc, P, enc)
                     if nb is not None:
                         pt_bytes = nb
                 if cont == "object" and obj_point is None and \
@@ -255,6 +273,11 @@ def execute(prog):
                 # ---- container
                 if cont in ("der", "pem"):
                     data = mder.spki(oid, pt_bytes)
+                    if alg_oid is not None:
+                        data = mder.enc_seq(
+                            mder.enc_seq(mder.enc_oid(alg_oid),
+                                         mder.enc_oid(oid)),
+                            mder.enc_bits(pt_bytes, 0))
                 else:
                     data = pt_bytes
                 if it["mode"] == "channel":
@@ -315,9 +338,24 @@ def execute(prog):
                 try:
                     if cont == "object":
                         Pobj = obj_point if obj_point is not None else P
-                        pobj = le.PointJacobi(curve.curve, Pobj[0], Pobj[1], 1,
-                                              mc.n) if rnd.random() < 0.5 \
-                            else _legacy(le, curve, Pobj)
+                        # the object may sit on the key's own CurveFp or on an
+                        # equal twin that declares another cofactor (CurveFp
+                        # equality ignores h): which group the key must lie
+                        # in is decided by the key's curve, not the object's
+                        cfp = curve.curve
+                        tw = rnd.random()
+                        if tw < 0.35:
+                            cfp = le.CurveFp(mc.p, cfp.a(), mc.b, rnd.choice(
+                                [1, 1, None, mc.h, 2 * mc.h]))
+                            core.bump(out["probes"], "object_on_twin_curve")
+                        flav = rnd.random()
+                        if flav < 0.4:
+                            pobj = le.PointJacobi(cfp, Pobj[0], Pobj[1], 1,
+                                                  mc.n)
+                        elif flav < 0.55:
+                            pobj = le.PointJacobi(cfp, Pobj[0], Pobj[1], 1)
+                        else:
+                            pobj = _legacy(le, cfp, Pobj)
                         vk = lk.VerifyingKey.from_public_point(
                             pobj, curve, validate_point=True)
                     elif cont == "bare":
@@ -392,10 +430,10 @@ class _LegacyRefused(Exception):
     pass
 
 
-def _legacy(le, curve, P):
+def _legacy(le, cfp, P):
     """A legacy affine Point object for P; the legacy constructor itself
     asserts the curve equation, so off-curve objects cannot be built."""
     try:
-        return le.Point(curve.curve, P[0], P[1])
+        return le.Point(cfp, P[0], P[1])
     except AssertionError:
         raise _LegacyRefused()
